@@ -1,44 +1,36 @@
 /-
   Driver/Core.lean — verdict type and helpers shared by all suites of the line-protocol driver.
   A case is one S-expression per line:  (case <id> <suite> <arg>...)
-  The answer is one line:               <id> TAB <status> TAB <detail>
-    status = ok        model and implementation agree and the property predicate holds on the implementation's output
-             corr      the implementation's observation differs from the model's (correspondence broken)
-             prop      the executable property predicate fails on the implementation's output
-             corr+prop both
-             skip      case outside the modelled domain (detail names the region)
-             bad       malformed case line
+  The answer is one line:               <id> TAB <status> TAB <items joined by " | ">
+    status = ok     nothing failed (out-of-scope notes may be present)
+             fail   at least one `corr[...]` or `prop[...]` item
+             bad    malformed case line
+    items  = corr[<point>]: model=… impl=…      the implementation's observation differs from the model's
+             prop[<Cxx>]: <reason>               the executable property predicate fails on the implementation's output,
+                                                 on an input inside the property's proved scope
+             oos[<Cxx>:<region>]: fails|holds …  the input is outside the scope of `Cxx_partial` (region = which hypothesis
+                                                 fails); whether the property happens to fail there is reported, not judged
+             unmodelled[<what>]                  the model refuses this path (e.g. capacity-dependent slice code)
 -/
 import SqlizeModel.Base.SExp
 
 namespace Sqlize.Driver
 
 structure Verdict where
-  corrOk : Bool := true
-  propOk : Bool := true
-  skip : Option String := none
-  detail : List String := []
+  items : List String := []
+  failed : Bool := false
 
-def Verdict.status (v : Verdict) : String :=
-  match v.skip with
-  | some _ => "skip"
-  | none =>
-    match v.corrOk, v.propOk with
-    | true, true => "ok"
-    | false, true => "corr"
-    | true, false => "prop"
-    | false, false => "corr+prop"
+def Verdict.status (v : Verdict) : String := if v.failed then "fail" else "ok"
 
 def Verdict.render (id : String) (v : Verdict) : String :=
-  let d := match v.skip with
-    | some r => r
-    | none => " | ".intercalate v.detail
+  let d := " | ".intercalate v.items
   let d := (d.replace "\n" "\\n").replace "\t" "\\t"
   id ++ "\t" ++ v.status ++ "\t" ++ d
 
 def Verdict.and (a b : Verdict) : Verdict :=
-  { corrOk := a.corrOk && b.corrOk, propOk := a.propOk && b.propOk,
-    skip := a.skip <|> b.skip, detail := a.detail ++ b.detail }
+  { items := a.items ++ b.items, failed := a.failed || b.failed }
+
+def okV : Verdict := {}
 
 /-- first differing line of two multi-line texts -/
 def firstDiff (a b : String) : String × String :=
@@ -51,16 +43,28 @@ def firstDiff (a b : String) : String × String :=
 
 def corrFail (what : String) (model impl : String) : Verdict :=
   let (m, i) := firstDiff model impl
-  { corrOk := false, detail := [s!"corr {what}: model={SExp.quote m} impl={SExp.quote i}"] }
+  { failed := true, items := [s!"corr[{what}]: model={SExp.quote m} impl={SExp.quote i}"] }
 
-def propFail (what : String) : Verdict :=
-  { propOk := false, detail := [s!"prop {what}"] }
+def propFail (pid : String) (why : String) : Verdict :=
+  { failed := true, items := [s!"prop[{pid}]: {why}"] }
 
-def okV : Verdict := {}
+/-- out of the proved scope of `pid` (region names the failed hypothesis); `fails` = the predicate is false there -/
+def oosNote (pid region : String) (fails : Bool) (why : String := "") : Verdict :=
+  { items := [s!"oos[{pid}:{region}]: {if fails then "fails " ++ why else "holds"}"] }
+
+def unmodelled (what : String) : Verdict := { items := [s!"unmodelled[{what}]"] }
 
 /-- compare a model string with the implementation's observation -/
 def expectEq (what : String) (model impl : String) : Verdict :=
   if model == impl then okV else corrFail what model impl
+
+/-- a property result routed through its scope: `region = none` ⇒ in scope -/
+def judge (pid : String) (region : Option String) (result : Except String Unit) : Verdict :=
+  match region, result with
+  | none, .ok _ => okV
+  | none, .error why => propFail pid why
+  | some r, .ok _ => oosNote pid r false
+  | some r, .error why => oosNote pid r true why
 
 abbrev Handler := List SExp → Option Verdict
 
